@@ -553,7 +553,7 @@ def search(oid, fail, seed):
 def _search(oid, fail, seed, names):
     if not names:
         return {"found": False, "note": "no builtin-level driver for this obligation (executor internals); the replay file carries the verifier's diagnostic only"}
-    rep = grid(names, seed, cap=400)
+    rep = grid(names, seed, cap=6000 if len(names) == 1 else 1500)
     if rep["disagreements"]:
         d = rep["disagreements"][0]
         return {"found": True, "input": d, "others": rep["disagreements"][1:6], "calls_tried": rep["calls"]}
